@@ -97,3 +97,13 @@ def c08_kwonly_default_with_hash(v):
     (stdlib configparser.py: `comment_prefixes=('#', ';')` after `*`) derails token matching."""
     w = v.get("witness") or []
     return "annotation raised" in (v.get("why") or "") and isinstance(w, list) and len(w) == 2 and str(w[1]).endswith("configparser.py")
+
+
+def c19_parens_dropped(v):
+    """C19: parentheses around code bound to a wildcard are not kept: `(a + b) * c` restructured with `${a} * ${b}` -> `${a} * ${b}` becomes `a + b * c`."""
+    o = v.get("observed") or {}
+    code, res = o.get("code"), o.get("result")
+    if not (isinstance(code, str) and isinstance(res, str)) or o.get("goal") != o.get("pattern"):
+        return False
+    strip = lambda t: t.replace("(", "").replace(")", "").replace(" ", "")
+    return code != res and strip(code) == strip(res)
